@@ -50,6 +50,7 @@ type FieldPtr struct {
 type ElemPtr struct {
 	Ref, Idx *Term
 	Elem     types.Type
+	Path     []int // field path inside a struct element
 }
 
 // MapIterV is the iterator of a range over a Go map; its visited set lives in State.ghostV[Key].
@@ -318,7 +319,14 @@ func topOf(x *Term, def *Term) *Term {
 	t := x
 	for depth := 0; depth < 64; depth++ {
 		switch t.Op {
-		case "select", "store":
+		case "select":
+			// a cell at an address that may itself be fresh (a call result, a new object) is only
+			// bounded by the current frontier
+			if mentionsFresh(t.Args[1], 0) {
+				return def
+			}
+			t = t.Args[0]
+		case "store":
 			t = t.Args[0]
 		case "def":
 			t = t.Args[0]
@@ -337,6 +345,26 @@ func topOf(x *Term, def *Term) *Term {
 		}
 	}
 	return def
+}
+
+func mentionsFresh(t *Term, depth int) bool {
+	if depth > 12 {
+		return true
+	}
+	switch t.Op {
+	case "const":
+		return strings.Contains(t.Name, "!")
+	case "def":
+		return true
+	case "int", "str", "bool", "bv", "var":
+		return false
+	}
+	for _, a := range t.Args {
+		if mentionsFresh(a, depth+1) {
+			return true
+		}
+	}
+	return false
 }
 
 // typeFacts returns the well-typedness facts of a value (ranges, slice shape).
